@@ -314,34 +314,55 @@ fn execute(sc: &Value) -> RunReport {
             ctx.probe("crash_images_opened");
         }
 
-        // ---- single-byte corruption of the final file
+        // ---- single-byte corruption of the final file, in place: the damaged file sits in a copy of
+        //      the whole directory the history left behind (temporary files, anything else the store keeps)
         let final_file = std::fs::read(&path).unwrap_or_default();
         if !final_file.is_empty() && !seeds.is_empty() {
             let want_positions = sc["corrupt_positions"].as_u64().unwrap_or(24) as usize;
             let positions: Vec<usize> = if want_positions == 0 || want_positions >= final_file.len() {
                 (0..final_file.len()).collect()
             } else {
-                let mut p: Vec<usize> = (0..want_positions).map(|_| rng.usize_below(final_file.len())).collect();
+                // half of the drawn positions fall into the first 48 bytes (version, length prefixes, salt, nonce)
+                let mut p: Vec<usize> = (0..want_positions).map(|j| if j % 2 == 0 { rng.usize_below(final_file.len().min(48)) } else { rng.usize_below(final_file.len()) }).collect();
+                p.push(0);
                 p.sort();
                 p.dedup();
                 p
             };
+            let dir_image = simstore::read_dir_image(path.parent().expect("store dir"));
+            let file_name = path.file_name().and_then(|n| n.to_str()).unwrap_or("keys.enc").to_string();
+            if dir_image.len() > 1 { ctx.probe("corruption_with_sibling_files"); }
             let cdir = scratch.path.join("corrupt");
-            let _ = std::fs::create_dir_all(&cdir);
-            let cpath = cdir.join("keys.enc");
-            let (id, want) = seeds.iter().next().map(|(a, b)| (a.clone(), b.clone())).unwrap();
+            let cpath = cdir.join(&file_name);
             for pos in positions {
                 for pat in [0x01u8, 0x80u8] {
                     let mut b = final_file.clone();
                     b[pos] ^= pat;
+                    simstore::materialise(&dir_image, &cdir);
                     std::fs::write(&cpath, &b).expect("write corrupted");
                     let m = EncryptedKeyStorageManager::new(&cpath, SecurityLevel::Fast).expect("manager");
                     ctx.fault("byte_flip");
-                    match m.retrieve_master_seed(&id, &pw(cur_pw)).await {
-                        Err(_) => ctx.probe("corruption_rejected"),
-                        Ok(got) if got.seed_material() == &want[..] => ctx.probe("corruption_harmless_byte"),
-                        Ok(_) => {
-                            ctx.violate("C18.corrupt.different_key_material", format!("offset_class={}", pos * 8 / final_file.len().max(1)), format!("flipping byte {pos} (^{pat:#x}) of the {}-byte store file made retrieve return DIFFERENT key material", final_file.len()));
+                    let mut opened = false;
+                    for (id, want) in seeds.iter() {
+                        match m.retrieve_master_seed(id, &pw(cur_pw)).await {
+                            Err(_) => { ctx.probe("corruption_rejected"); break; }
+                            Ok(got) if got.seed_material() == &want[..] => { opened = true; ctx.probe("corruption_harmless_byte"); }
+                            Ok(_) => {
+                                ctx.violate("C18.corrupt.different_key_material", format!("offset_class={}", pos * 8 / final_file.len().max(1)), format!("flipping byte {pos} (^{pat:#x}) of the {}-byte store file made retrieve return DIFFERENT key material for {id}", final_file.len()));
+                                break;
+                            }
+                        }
+                    }
+                    let _ = opened;
+                    // no other password opens the damaged store either (one earlier password per position)
+                    if pat == 0x01 {
+                        if let Some(old) = prev_pws.last().copied().filter(|o| *o != cur_pw) {
+                            let m2 = EncryptedKeyStorageManager::new(&cpath, SecurityLevel::Fast).expect("manager");
+                            let id = seeds.keys().next().cloned().unwrap_or_default();
+                            if m2.retrieve_master_seed(&id, &pw(old)).await.is_ok() {
+                                ctx.violate("C18.corrupt.opens_with_other_password", format!("offset_class={}", pos * 8 / final_file.len().max(1)), format!("after flipping byte {pos} of the store file a PREVIOUS password retrieves a seed"));
+                            }
+                            ctx.probe("corruption_previous_password_tried");
                         }
                     }
                 }
